@@ -379,3 +379,54 @@ def c13(chk):
         spec_mutant(chk, "no_rotation", "MC_Dial.tla", "MC_Dial_quick.cfg", [MUT_NO_ROTATION])
         spec_mutant(chk, "dial_allowed", "MC_Dial.tla", "MC_Dial_quick.cfg", [MUT_DIAL_ALLOWED])
         spec_mutant(chk, "dial_self", "MC_Dial.tla", "MC_Dial_quick.cfg", [MUT_DIAL_SELF])
+
+
+CONN_SCENARIOS = {"conn", "c03", "c05", "c08", "c10", "c13", "oddcfg", "replay-conn", "c06"}
+RPC_SCENARIOS = {"rpc", "c06", "c08", "oddcfg"}
+
+
+def replay(path):
+    """bin/check replay <path>: show a stored violation and reproduce it. A violation that was found by
+    trace validation is reproduced by validating the stored trace (the run of the real code that was
+    rejected) again; any other one by re-running the property's check with the recorded seed and tier.
+    Exit 1 (with a VIOLATION line) if it reproduces, 0 if not."""
+    d = json.load(open(path))
+    det = d.get("detail") or {}
+    pid = d.get("property")
+    log(f"property {pid}  key {d.get('key')}  seed {d.get('seed')}  tier {d.get('tier')}")
+    log("  " + str(d.get("what"))[:1200])
+    trace = det.get("trace")
+    if trace and os.path.exists(trace):
+        scen = det.get("scenario")
+        specs = []
+        if scen in CONN_SCENARIOS or scen is None:
+            specs.append(("AnemoConnTrace.tla", "AnemoConnTrace.cfg"))
+        if scen in RPC_SCENARIOS:
+            specs.append(("AnemoRpcTrace.tla", "AnemoRpcTrace.cfg"))
+        if scen == "apstress":
+            specs = [("ApTrace.tla", "ApTrace.cfg")]
+        if scen == "limstress":
+            specs = [("InflightStressTrace.tla", "InflightStressTrace.cfg")]
+        reproduced = False
+        for tla, cfg in specs:
+            res = vlib.tlc_trace(tla, cfg, trace)
+            if res.get("error"):
+                log(f"  {tla}: tool error {res['error']}")
+                return 2
+            if res["ok"]:
+                log(f"  {tla}: the stored trace ({res['lines']} events) is accepted")
+            else:
+                line = res["invariant"]["line"] if res["invariant"] else res["rejected_line"]
+                rec = vlib.read_trace(trace)[line - 1] if line and line > 0 else {}
+                what = f"invariant {res['invariant']['name']}" if res["invariant"] else "no action explains the event"
+                log(f"  {tla}: rejected at line {line} ({what}): {json.dumps(rec)[:500]}")
+                reproduced = True
+        if reproduced:
+            print(f"VIOLATION property={pid} replay={path}")
+            return 1
+        return 0
+    # table rows / behaviours / real-thread trials: run the check again as it ran then
+    env = dict(os.environ, VERIF_SEED=str(d.get("seed", 1)))
+    import subprocess
+    rc = subprocess.call([os.path.join(vlib.VERIF, "bin", "check"), pid, "--tier", d.get("tier", "quick")], env=env)
+    return rc
